@@ -1,7 +1,7 @@
 (* Proofs for C09: multi-party PSET blinding (Model/PsetBlind.v) balances for every split and order. *)
 From Coq Require Import List NArith ZArith Bool Lia Setoid Morphisms Permutation.
 From Coq.Strings Require Import Byte.
-From EV Require Import Base.Bytes Base.Zn Base.FreeMod Model.Script Model.Ideal Model.Verify Model.Blind Model.PsetBlind
+From EV Require Import Base.Bytes Base.Zn Base.FreeMod Gen.Tables Model.Script Model.Ideal Model.Verify Model.Blind Model.PsetBlind
   Proofs.ScriptTemplates Proofs.Ideal Proofs.Verify Proofs.Blind.
 Import ListNotations.
 Open Scope Z_scope.
@@ -32,25 +32,33 @@ Section Keys.
       (Some (mkRP (scommit s) spk (sgen s) (s_value s) (s_vbf s) (s_asset s, s_abf s) (ecdh rk esk) true))
       (Some (mkSP (sgen s) gens i (zsub (s_abf s) bf) true)).
 
-  Lemma wts_ok_g spk rk esk s spent tg : surjection_targets spent 0 = OVal tg -> holds_tg tg (s_asset s) ->
+  Lemma wts_ok_g spk rk esk s spent tg : surjection_targets spent 0 = OVal tg ->
+    (N.of_nat (length tg) <= CT_SURJECTIONPROOF_MAX_N_INPUTS)%N -> holds_tg tg (s_asset s) ->
     1 <= s_value s <= I64_MAX ->
     exists i bf, find_tag (s_asset s) tg 0 = Some (i, bf)
       /\ with_txout_secrets pubk ecdh spk rk esk s spent = OVal (wts_out_g spk rk esk s (tgens tg) i bf).
   Proof.
-    intros ST H V. unfold I64_MAX in V. destruct (find_tag_some (s_asset s) tg H 0%nat) as (i & bf & F).
+    intros ST SM H V. unfold I64_MAX in V. destruct (find_tag_some (s_asset s) tg H 0%nat) as (i & bf & F).
     exists i, bf. split; [exact F|].
-    unfold with_txout_secrets, asset_blind. rewrite ST. cbn [obind]. unfold sp_new. rewrite F. cbn [obind].
+    unfold with_txout_secrets, asset_blind. rewrite ST. cbn [obind]. rewrite (dom_guard_ok _ SM). unfold sp_new. rewrite F. cbn [obind].
     unfold value_blind, value_blind_with_shared_secret. cbn [fst snd].
     rewrite min_guard by lia. rewrite pedersen_new_ok by (pose proof qn_big; lia). cbn [obind].
     rewrite rp_new_some by (unfold I64_MAX; lia). cbn [obind]. reflexivity.
   Qed.
-  Lemma asset_blind_ok asset abf spent tg : surjection_targets spent 0 = OVal tg -> holds_tg tg asset ->
+  Lemma asset_blind_ok asset abf spent tg : surjection_targets spent 0 = OVal tg ->
+    (N.of_nat (length tg) <= CT_SURJECTIONPROOF_MAX_N_INPUTS)%N -> holds_tg tg asset ->
     exists i bf, find_tag asset tg 0 = Some (i, bf)
       /\ asset_blind (AExp asset) abf spent = OVal (AConf (asset_gen asset abf), mkSP (asset_gen asset abf) (tgens tg) i (zsub abf bf) true).
   Proof.
-    intros ST H. destruct (find_tag_some asset tg H 0%nat) as (i & bf & F). exists i, bf. split; [exact F|].
-    unfold asset_blind. rewrite ST. cbn [obind]. unfold sp_new. rewrite F. reflexivity.
+    intros ST SM H. destruct (find_tag_some asset tg H 0%nat) as (i & bf & F). exists i, bf. split; [exact F|].
+    unfold asset_blind. rewrite ST. cbn [obind]. rewrite (dom_guard_ok _ SM). unfold sp_new. rewrite F. reflexivity.
   Qed.
+
+  (* more targets than Asset::blind accepts: refused after the targets are collected *)
+  Lemma wts_over_limit_g spk rk esk s spent tg : surjection_targets spent 0 = OVal tg ->
+    (CT_SURJECTIONPROOF_MAX_N_INPUTS < N.of_nat (length tg))%N ->
+    with_txout_secrets pubk ecdh spk rk esk s spent = OFail BCannotProveSurjection.
+  Proof. intros ST L. unfold with_txout_secrets, asset_blind. rewrite ST. cbn [obind]. rewrite (dom_guard_over _ L). reflexivity. Qed.
 
   (* the blinded output passes the per-output checks in every domain equal to the target generators *)
   Lemma verify_output_wts_g domain k spk rk esk s tg i bf :
@@ -109,6 +117,8 @@ Section Step.
   Variable ecdh : Z -> Z -> Z.
   Variable p : profile.
   Variable tg : list sdom.            (* this party's surjection targets *)
+  (* ... no more of them than Asset::blind accepts (a premise of the lemmas below in which an output is blinded) *)
+  Hypothesis tg_small : within_limit (length tg).
 
   (* an explicit, not yet blinded output this party can blind *)
   Definition pgood (o : pout) : Prop :=
@@ -140,7 +150,7 @@ Section Step.
         OVal (set_nth outs i (blinded_as o (mkSec a abf v vbf) esk j bf), (v, abf, vbf), (abf, vbf, esk), rnd').
   Proof.
     intros ST NE (a & v & rk & A & V & K & R & (ad & AD) & H & AC & VC) Zabf.
-    destruct (wts_ok_g pubk ecdh (po_script o) rk esk (mkSec a abf v vbf) sis tg ST H R) as (j & bf & F & W). cbn [s_asset] in F.
+    destruct (wts_ok_g pubk ecdh (po_script o) rk esk (mkSec a abf v vbf) sis tg ST tg_small H R) as (j & bf & F & W). cbn [s_asset] in F.
     exists a, v, j, bf. split; [exact A|]. split; [exact V|]. split; [exact F|].
     unfold blind_one. rewrite NE, K. cbn [opt_err obind].
     unfold to_non_last_confidential, to_txout. rewrite AC, VC, A, V. cbn [o_value o_asset o_script].
@@ -338,6 +348,9 @@ Section Flow.
   Variables (ins : list pin) (SS : list secrets) (utxos : list txout).
   Hypothesis INS : Forall3 in_ok ins SS utxos.
   Hypothesis ISS : issuances_unblinded ins.
+  (* the surjection domain — one entry per input and one per issuance / inflation-keys amount, the same number for every
+     party (party_tg_length) — is within the limit of Asset::blind *)
+  Hypothesis DOM : within_limit (length (all_ss ins SS)).
 
   Definition sec_ok (sec : list (nat * secrets)) : Prop := forall i s, lookup sec i = Some s -> nth_error SS i = Some s.
   Definition Isum (sec : list (nat * secrets)) : Z := zsum (map svb (map snd sec)).
@@ -353,6 +366,15 @@ Section Flow.
     intros j s L. apply (H j s L). cbn [Nat.add]. destruct (Forall3_length _ _ _ _ INS) as [LS _].
     assert (j < length SS)%nat by (apply nth_error_Some; rewrite (OK j s L); discriminate). lia.
   Qed.
+
+  Lemma party_tg_length sec : sec_ok sec -> length (party_tg ins sec) = length (all_ss ins SS).
+  Proof.
+    intro OK. destruct (party_targets sec OK) as (_ & _ & _ & D & _).
+    assert (L : forall {A B} (R : A -> B -> Prop) l l', Forall2 R l l' -> length l = length l') by (induction 1; cbn; congruence).
+    apply L in D. unfold tgens in D. rewrite !map_length in D. now symmetry.
+  Qed.
+  Lemma party_tg_small sec : sec_ok sec -> within_limit (length (party_tg ins sec)).
+  Proof. intro OK. rewrite (party_tg_length sec OK). exact DOM. Qed.
 
   (* blind_non_last on a state whose outputs owned by this party are still explicit *)
   Lemma non_last_char ps sec rnd :
@@ -375,7 +397,7 @@ Section Flow.
     - exists (ps_out ps), [], rnd. destruct ps as [pi po psc]; cbn [ps_in ps_out ps_scalars] in *. subst pi.
       repeat split; try constructor; try assumption; try (cbn; lia); intros ? [].
     - rewrite <- EIDX in *. destruct (party_targets sec OK) as (sis & SI & ST & D & H). rewrite SI. cbn [obind].
-      destruct (blind_each_ok pubk ecdh p (party_tg ins sec) sis ST idx (ps_out ps) rnd (owned_idx_nodup _ _ _) G RL RZ)
+      destruct (blind_each_ok pubk ecdh p (party_tg ins sec) (party_tg_small sec OK) sis ST idx (ps_out ps) rnd (owned_idx_nodup _ _ _) G RL RZ)
         as (outs' & osecs & reps & rnd' & BE & L & U & F & S & LO & R2 & LR & RZ').
       rewrite BE. cbn [obind].
       assert (NE : osecs <> []) by (intro E; rewrite E, EIDX in LO; discriminate).
@@ -486,7 +508,7 @@ Section Flow.
     destruct rnd as [|abf [|esk rnd']]; cbn [length] in RL; try lia.
     assert (Zabf : in_zn abf) by (inversion RZ; assumption).
     destruct (party_targets sec OK) as (sis & SI & ST & _ & _).
-    destruct (asset_blind_ok a abf sis _ ST H) as (j & bf & F & AB).
+    destruct (asset_blind_ok a abf sis _ ST (party_tg_small sec OK) H) as (j & bf & F & AB).
     destruct (explicit_out_secrets_ok X 0%nat FX) as (exp & EO & EZ).
     set (fv := fold_left zadd scal (last_vbf v abf inp exp)).
     exists (mkSec a abf v fv), esk, j, bf, rnd', sis. cbn [s_asset s_value s_abf s_vbf].
@@ -1031,6 +1053,7 @@ Qed.
 
 (* the published scalar of a non-last blinder: (its inputs) - (the outputs it blinded), in v·abf + vbf terms *)
 Lemma scalar_meaning pubk ecdh p ins SS utxos : Forall3 in_ok ins SS utxos -> issuances_unblinded ins ->
+  (N.of_nat (length (all_ss ins SS)) <= CT_SURJECTIONPROOF_MAX_N_INPUTS)%N ->
   forall ps sec rnd, ps_in ps = ins -> sec_ok SS sec -> indices_ok (length ins) (ps_out ps) ->
   (forall i, In i (owned_idx sec (ps_out ps) 0) -> exists o, nth_error (ps_out ps) i = Some o /\ pgood (party_tg ins sec) o) ->
   (3 * length (owned_idx sec (ps_out ps) 0) <= length rnd)%nat -> Forall in_zn rnd -> owned_idx sec (ps_out ps) 0 <> [] ->
@@ -1040,7 +1063,29 @@ Lemma scalar_meaning pubk ecdh p ins SS utxos : Forall3 in_ok ins SS utxos -> is
     /\ Forall2 (fun i r => fst r = i /\ exists o', nth_error outs' i = Some o' /\ fst (fst (snd r)) = s_abf (osec_of o') /\ snd (fst (snd r)) = s_vbf (osec_of o'))
          (owned_idx sec (ps_out ps) 0) bl.
 Proof.
-  intros INS ISS ps sec rnd EI OK IO G RL RZ NE.
-  destruct (non_last_char pubk ecdh p ins SS utxos INS ISS ps sec rnd EI OK IO G RL RZ) as (outs' & bl & rnd' & BN & _ & _ & _ & _ & _ & R).
+  intros INS ISS DOM ps sec rnd EI OK IO G RL RZ NE.
+  destruct (non_last_char pubk ecdh p ins SS utxos INS ISS DOM ps sec rnd EI OK IO G RL RZ) as (outs' & bl & rnd' & BN & _ & _ & _ & _ & _ & R).
   exists outs', bl, rnd'. split; [|exact R]. rewrite BN. destruct (owned_idx sec (ps_out ps) 0); [contradiction|reflexivity].
+Qed.
+
+(* a surjection domain larger than Asset::blind accepts: a non-last blinder with something to blind is refused at its first output *)
+Lemma non_last_over_limit pubk ecdh p ins SS utxos : Forall3 in_ok ins SS utxos -> issuances_unblinded ins ->
+  (CT_SURJECTIONPROOF_MAX_N_INPUTS < N.of_nat (length (all_ss ins SS)))%N ->
+  forall ps sec rnd, ps_in ps = ins -> sec_ok SS sec -> indices_ok (length ins) (ps_out ps) ->
+  (forall i, In i (owned_idx sec (ps_out ps) 0) -> exists o, nth_error (ps_out ps) i = Some o /\ pgood (party_tg ins sec) o) ->
+  (3 <= length rnd)%nat ->
+  forall i0 rest, owned_idx sec (ps_out ps) 0 = i0 :: rest ->
+  blind_non_last pubk ecdh p ps sec rnd = OFail (PConfidentialTxOutError i0 BCannotProveSurjection).
+Proof.
+  intros INS ISS OV ps sec rnd EI OK IO G RL i0 rest EIDX.
+  unfold blind_non_last, blind_checks. rewrite EI, (check_issuances_ok _ _ ISS). cbn [obind].
+  rewrite (outs_to_blind_eq _ _ _ _ IO). cbn [obind]. rewrite EIDX.
+  destruct (party_targets ins SS utxos INS sec OK) as (sis & SI & ST & _ & _). rewrite SI. cbn [obind blind_each].
+  destruct (G i0) as (o & NE & (a & v & rk & A & V & K & R & (ad & AD) & H & AC & VC)); [rewrite EIDX; now left|].
+  unfold blind_one. rewrite NE, K. cbn [opt_err obind].
+  unfold to_non_last_confidential, to_txout. rewrite AC, VC, A, V. cbn [o_value o_asset o_script].
+  rewrite (address_spk_ok p _ ad AD). cbn [obind]. unfold new_not_last_confidential.
+  destruct rnd as [|x1 [|x2 [|x3 rnd']]]; cbn [length] in RL; try lia. cbn [draw obind].
+  rewrite (wts_over_limit_g pubk ecdh _ _ _ _ sis _ ST); [reflexivity|].
+  rewrite (party_tg_length ins SS utxos INS sec OK). exact OV.
 Qed.
